@@ -364,7 +364,8 @@ def oracle_c12(doc):
                 nf = normalize(copy.deepcopy(doc))
                 if any(alt.get("type") == [] for alt in conjuncts(nf)):
                     why = ":empty-type-intersection"
-                elif kind == "type":
+                elif kind == "type" and len(path) == 1:
+                    # (only for the schema's own top-level 'type': there the default samples are the whole instances)
                     defaults = ["string", 42, None, True, False, {}, []]
                     if not any(v2.is_valid(x) and not v.is_valid(x) for x in defaults):
                         why = ":default-samples-of-the-freed-types-violate-another-constraint"
@@ -374,7 +375,6 @@ def oracle_c12(doc):
                 pass
             res.append(("relaxation-not-fenced:" + kind + why, "deleting %s at %s changes the accepted set, but no generated sample gets a different verdict" % (
                 kind, "/".join(str(p) for p in path)), path))
-            break
     return res
 
 
